@@ -327,8 +327,15 @@ func bigKind(size, salt int) string {
 
 func ladderCase(k int, heavy bool) input {
 	ci, ei, si := k/33, (k/11)%3, k%11
-	if si == 10 && !heavy && !(ei == 2 || (ei == 1 && ci < 2) || (ei == 0 && ci == 0)) {
-		si = 9 // quick tier: 64 MiB+1 for zstd everywhere, lz4 under cgo and nocgo, null once; else 16 MiB+1 again
+	if !heavy { // the quick tier has to stay around 100 s: one rung each for everybody, the +-1 neighbours once
+		switch {
+		case si == 10 && !(ei == 2 && ci < 2): // 64 MiB+1: zstd under cgo and nocgo only
+			return input{Cfg: cfgNames[ci], Enc: encNames[ei], Level: 6, Kind: "tile", Size: 1<<20 + 3 + k, DSeed: uint64(2000 + k),
+				HasDst: true, Src: "bytes", SLen: 8192, SCap: 8192}
+		case (si == 0 || si == 2 || si == 3 || si == 4 || si == 6) && ci != (ei+si)%4:
+			return input{Cfg: cfgNames[ci], Enc: encNames[ei], Level: 6, Kind: "mixed", Size: 1 + ladder[si]%4093, DSeed: uint64(2000 + k),
+				HasDst: true, Src: "file", SLen: 8192, SCap: 8192}
+		}
 	}
 	kind := bigKind(ladder[si], ci+ei+si)
 	return input{Cfg: cfgNames[ci], Enc: encNames[ei], Level: 6, Kind: kind, Size: ladder[si],
@@ -353,8 +360,12 @@ func windowCase(k int, heavy bool) input {
 			DSeed: uint64(3000 + k), HasDst: true, Src: "bytes", SLen: 8192, SCap: 8192}
 	}
 	ci, e := k/17, 10+k%17
-	if e > 24 && !heavy && ci >= 2 { // quick tier: 2^25+1 and 2^26+1 only for cgo and nocgo
-		e -= 4
+	if !heavy { // quick tier: up to 2^24+1 for cgo and nocgo, 2^25+1 / 2^26+1 for nocgo, up to 2^20+1 for the others
+		if ci >= 2 && e > 20 {
+			e -= 9
+		} else if ci == 0 && e > 24 {
+			e -= 6
+		}
 	}
 	lvl := 1 + (k*7)%19
 	if e > 20 {
@@ -438,11 +449,15 @@ func gen(r *vhlib.Rand, i int, o vhlib.Opts) any {
 			in.Size = r.Intn(4097)
 		}
 	}
-	if r.Chance(10) { // log-uniform in [1, 2^26]
-		in.Size = 1 << uint(r.Intn(26))
+	if r.Chance(10) { // log-uniform in [1, 2^26] (quick tier: 2^23)
+		top := 23
+		if o.Search || o.Tier == "thorough" {
+			top = 26
+		}
+		in.Size = 1 << uint(r.Intn(top))
 		in.Size += r.Intn(in.Size + 1)
 		if in.Size > 1<<20 { // keep the run time small: compressible contents, moderate levels
-			in.Kind = vhlib.Pick(r, []string{"const", "tile", "tile"})
+			in.Kind = "tile"
 			in.Level = 1 + r.Intn(6)
 		}
 	}
